@@ -47,12 +47,13 @@ def run(ctx):
                    env={"VERIF_STAGE": "c01x", "VERIF_C01_MODE": "exhaustive"}, timeout=1500)
     return standard(ctx, "C01", ["model/C01_run.vo"], stages,
                     rule="1-3 Directory volumes (every RO/RW mix, full / unwritable prefix), 1-2 blocks (sizes 0,1,2,63,64,65,100,4096, "
-                         "random, an MD5 collision pair, rarely exactly 64 MiB), a corruption pattern per copy, 1-7 GET/HEAD/PUT requests incl. uploads that do not arrive completely (body ends or breaks after a prefix of the announced length, mostly right after a PUT/GET that left the same block in the buffer); 40 % of the cases with a real 2-3 buffer pool and requests stalled inside their response write / body upload while 1-2 other requests run and pooled buffers are overwritten; "
+                         "random, an MD5 collision pair, rarely exactly 64 MiB), a corruption pattern per copy, 1-7 GET/HEAD/PUT requests incl. uploads that do not arrive completely (body ends or breaks after a prefix of the announced length, mostly right after a PUT/GET that left the same block in the buffer); blocks of 40-100 KB (several chunks of the volume's copy loop) in 1 of 6; 40 % of the cases with a real 2-3 buffer pool and requests stalled inside their response write / body upload while 1-2 other requests run and pooled buffers are overwritten; "
                          "distinct by hash of the case term; non-trivial = some copy is neither intact nor absent, or a GET/PUT was refused",
                     assumptions=["block bytes are abstracted to {cid; length}; the digest is the table of MD5 values computed by Go for the contents of the case (theorems hold for every digest function)",
                                  "requests are sent to the handler returned by handler.setup (MakeRESTRouter) through httptest.ResponseRecorder: HTTP framing by net/http is not exercised",
                                  "Touch of a file that was just read successfully is assumed to succeed (no concurrent actor; that race is C04)",
                                  "the single shared buffer of the sequential cases is never cleared; the harness pools count 1-4 buffers as taken by other clients for the whole case (so that a handler that gives a buffer back twice does not block for ever in the pool's accounting but really leaves the buffer in the pool twice); a request whose handler does not return within 60 s (1 s after the first such request of a run) is recorded as unanswered and ends its case",
+                                 "clients that go away (http.CloseNotifier of the response writer; delivered on the request's own goroutine at a chosen point, then the processor is yielded under GOMAXPROCS(1) so that contextForResponse's goroutine cancels the context; nothing is timed): PUTABANDON = in the middle of WriteBlock's copy, right after a complete PUT of the same block ran and was answered (only with one writable volume, so that both writes go to the same place); PUTLOCKED/PUTHANGUP = a lone Serialize volume, the second PUT's client goes away at the moment it starts to wait for the volume lock held by the first (it meets the lock in Compare: a hang-up while waiting in WriteBlock leaves the temp file behind in /repo, which is outside this property); PUTNOBUF = all buffers out, the client goes away when the pool reports that the request must wait, repeated once per buffer of the case, then a GET; a cancelled request is the model's PutCancel (error status, volumes unchanged)",
                                  "overlap cases: the other requests run inside the stalled request's Write/Read call under GOMAXPROCS(1) (sync.Pool hands a returned buffer to the next taker only within one P); the case is evaluated as the request sequence in linearisation order, justified by C01_overlapping_requests_linearizable"])
 
 
